@@ -87,7 +87,10 @@ def case_protocol(t):
     pause_resume = spec.pause_resume
     checkpointing = not t.chance(1, 3)
     allow_fail = (t.chance(1, 4) and fam != "dehb") or (fam == "sync-hb" and t.chance(1, 2))
-    kwargs = dict(level_cap_fn=cap, n_workers=n_workers, max_trials=t.int(2, 10), max_steps=t.weighted([(3, 40), (2, 80)]), checkpointing=checkpointing, allow_fail=allow_fail)
+    # scripts which skip levels / end on their own (only where the scheduler documents that it copes: stopping-type rules)
+    loose = fam in ("moasha", "hb-stopping", "median") and t.chance(1, 3)
+    kwargs = dict(level_cap_fn=cap, n_workers=n_workers, max_trials=t.int(2, 10), max_steps=t.weighted([(3, 40), (2, 80)]), checkpointing=checkpointing, allow_fail=allow_fail,
+                  sparse_reports=loose, early_complete=loose)
     dA = dp.ProtocolDriver(A, t, result_A, time_keeper=tkA, **kwargs)
     dB = dp.ProtocolDriver(B, None, result_B, time_keeper=tkB, **kwargs)
     # reference models only to detect the excluded 'threshold within round-off of a value' pairs
@@ -104,7 +107,7 @@ def case_protocol(t):
         else:
             ref = RefPromotion(levels, max_t, "min", br, pb, variant={"hb-promotion": "promotion", "hb-pasha": "pasha", "hb-cost": "cost_promotion", "hb-rush-promotion": "rush_promotion"}[fam], rush_candidates=rush_n)
     bracket_of = {}
-    labels = {fam}
+    labels = {fam} | ({"sparse-and-early-ending-scripts"} if loose else set())
     nontrivial = False
     step = 0
     while True:
